@@ -90,25 +90,32 @@ def drv_stencils_exact(tier, nfun):
             d_.case(key + ('hess',), ok, dict(info, got=np.asarray(got).tolist(), branch=branch), True, 'get_hess-not-exact-on-quadratic')
             d_.case(key + ('frame',), list(pin) == p0, info, True, 'get_hess-mutates-p0')
             # evaluation points stay within 2 steps of p0 in the two moved coordinates only
-            steps = [eps if (v == 0 or v * eps < 1e-6) else eps * v for v in p0]
-            ok = all(sum(1 for a in range(k) if q[a] != p0[a]) <= 2 and all(abs(q[a] - p0[a]) <= 2 * abs(steps[a]) for a in range(k)) for q in calls)
+            # candidate (step, one_sided) per coordinate: the documented rule; for NEGATIVE values the code's signed test pval*eps<1e-6
+            # always selects the absolute one-sided step, an abs() test would select the relative central one - both are accepted here
+            # (the accuracy consequence is measured in FIM_GIM.log)
+            cands = []
+            for v in p0:
+                if v == 0 or abs(v * eps) < 1e-6:
+                    cands.append([(eps, True)])
+                elif v < 0:
+                    cands.append([(eps, True), (eps * v, False)])
+                else:
+                    cands.append([(eps * v, False)])
+            ok = all(sum(1 for a in range(k) if q[a] != p0[a]) <= 2 and all(abs(q[a] - p0[a]) <= 2 * max(abs(c[0]) for c in cands[a]) for a in range(k))
+                     for q in calls)
             d_.case(key + ('stencil-points',), ok, info, True, 'get_hess-stencil-points')
             del calls[:]
             gg = G.get_grad(f, pin, eps)
             want = [g[a] + sum(H[a, b] * p0[b] for b in range(k)) for a in range(k)]
-            allc = all(b == 'central' for b in branch)
-            if linear or allc:
-                ok = gg.shape == (k, 1) and all(abs(float(gg[a, 0]) - want[a]) <= 4e-15 * abs(want[a]) for a in range(k))
-                d_.case(key + ('grad',), ok, dict(info, got=gg.ravel().tolist(), want=want, branch=branch), True,
-                        'get_grad-not-exact-on-linear' if linear else 'get_grad-central-not-exact-on-quadratic')
-            else:
-                # one-sided on a quadratic: first-order accurate, error exactly H_aa*step/2 for the one-sided coordinates
-                ok = True
-                for a in range(k):
-                    w = want[a] + (H[a, a] * steps[a] / 2 if branch[a] != 'central' else 0.0)
-                    if not abs(float(gg[a, 0]) - w) <= 4e-15 * max(abs(w), abs(want[a])):
-                        ok = False
-                d_.case(key + ('grad-one-sided',), ok, dict(info, got=gg.ravel().tolist(), want=want, branch=branch), True, 'get_grad-one-sided-stencil')
+            # central: exact on quadratics; one-sided: exact on linear functions, error exactly H_aa*step/2 on a quadratic
+            ok = gg.shape == (k, 1)
+            for a in range(k):
+                ws = [want[a] + (H[a, a] * st / 2 if one else 0.0) for st, one in cands[a]]
+                if not any(abs(float(gg[a, 0]) - w) <= 4e-15 * max(abs(w), abs(want[a])) for w in ws):
+                    ok = False
+            allc = all(len(c) == 1 and not c[0][1] for c in cands)
+            d_.case(key + ('grad',), ok, dict(info, got=gg.ravel().tolist(), want=want, branch=branch), True,
+                    'get_grad-not-exact-on-linear' if linear else 'get_grad-central-not-exact-on-quadratic' if allc else 'get_grad-one-sided-stencil')
             d_.case(key + ('frame-grad',), list(pin) == p0, info, True, 'get_grad-mutates-p0')
             return True, None
         d_.check(key, run, info, 'stencil-exception', nontrivial=False)
@@ -146,8 +153,9 @@ def drv_stencils_float(tier, nfun):
         def f(p, *args):
             p = np.asarray(p, dtype=float)
             return c + float(np.dot(g, p)) + 0.5 * float(np.dot(p, np.dot(H, p)))
-        steps = np.array([eps if (v == 0 or v * eps < 1e-6) else eps * v for v in p0])
-        box = np.abs(p0) + 2 * np.abs(steps)
+        steps = np.array([eps if (v == 0 or abs(v * eps) < 1e-6) else min(eps, abs(eps * v)) if v < 0 else eps * v for v in p0])   # smallest admissible step
+        big = np.array([eps if (v == 0 or abs(v * eps) < 1e-6) else max(eps, abs(eps * v)) for v in p0])
+        box = np.abs(p0) + 2 * big
         F = abs(c) + float(np.dot(np.abs(g), box)) + 0.5 * float(np.dot(box, np.dot(np.abs(H), box)))
         branch = tuple('zero' if v == 0 else 'one-sided' if v * eps < 1e-6 else 'central' for v in p0)
         info = dict(k=k, eps=eps, p0=p0, H=H.tolist(), g=g.tolist(), c=c, branch=branch)
@@ -158,7 +166,7 @@ def drv_stencils_float(tier, nfun):
             tol = 64 * u * F / np.abs(np.outer(steps, steps)) + 1e-13 * np.abs(H)
             ok = bool(np.all(np.abs(got - H) <= tol)) and np.array_equal(got, got.T)
             d_.case(key + ('hess',), ok, dict(info, got=got.tolist(), max_err=float(np.max(np.abs(got - H))), tol=float(np.min(tol))), True, 'get_hess-float-quadratic')
-            if linear or all(b == 'central' for b in branch):
+            if linear or all(v > 0 and v * eps >= 1e-6 for v in p0):
                 gg = G.get_grad(f, list(p0), eps).ravel()
                 want = g + np.dot(H, p0)
                 tolg = 16 * u * F / np.abs(steps) + 1e-13 * np.abs(want)
@@ -342,7 +350,7 @@ def drv_uncert(tier, nmodels, log):
                 '[0.26,3.4]^k (within 12%% of the generating point), 20 bootstraps, multinom off/on (theta appended), log=%s, boot_theta_adjusts (multinom off), '
                 'eps in {1e-2,2.5e-3}: FIM_uncert, GIM_uncert (+returned H, GIM) against analytic derivatives assembled with numpy.linalg: rel err <= '
                 '4*amp*eps^2 and shrinking >=8x for eps/4 (>=3x when the coarse error exceeds 5%%) down to the round-off floor (amp=max(1,cond(H)/10,cond(J)/30)); 10 permutations of the bootstraps: rel 1e-10; cache cleared '
-                'before every call' % (nmodels, log)))
+                'before every call; parameters on the documented one-sided branch (0<=x*eps<1e-6) are held to 6*amp*eps only' % (nmodels, log)))
     import numpy as np
     import dadi
     from dadi import Godambe as G
@@ -362,7 +370,7 @@ def drv_uncert(tier, nmodels, log):
                 q = np.concatenate([p0, [theta]])
             else:
                 q = p0.copy()
-            neg = log and bool(np.any(q < 1))        # log-parameters < 0 take the one-sided branch (pval*eps < 1e-6 without abs)
+            neg = log and bool(np.any(np.log(q) * EPS[1] <= -1e-6))   # log-parameters < 0 take the one-sided branch (pval*eps < 1e-6 without abs)
             H = lin.hess(q, d, multinom, log)
             with np.errstate(invalid='ignore'):
                 wantF = np.sqrt(np.diag(np.linalg.inv(H)))
@@ -377,7 +385,9 @@ def drv_uncert(tier, nmodels, log):
             m_q = lin._m(q, multinom)[0]
             ll_mag = float(np.sum(m_q + np.abs(d * np.log(m_q)) + np.abs(gammaln(d + 1))))
             x = np.log(q) if log else q
-            hmin = min(EPS[1] if xv * EPS[1] < 1e-6 else EPS[1] * xv for xv in x)
+            hmin = min(e if xv * e < 1e-6 else e * xv for xv in x for e in EPS)
+            # documented branch: 0 <= x*eps < 1e-6 -> absolute step eps, one-sided stencil, first-order accurate by design
+            doc_one_sided = any(abs(xv * e) < 1e-6 for xv in x for e in EPS)
             ro = 256 * 2.0 ** -53 * ll_mag / (hmin ** 2 * float(np.max(np.abs(H))))
             info = dict(k=k, n=n, p0=p0.tolist(), B=lin.B.tolist(), B0=lin.B0.tolist(), data=d.tolist(), multinom=multinom, log=log, theta_adjusts=adj,
                         negative_logparam=neg, roundoff_floor=ro)
@@ -403,12 +413,17 @@ def drv_uncert(tier, nmodels, log):
                         u_plain = G.FIM_uncert(lin.func, [n], list(p0), data, log=log, multinom=multinom, eps=eps)
                         d_.case(key + ('return-shapes',), np.shape(u) == (len(q),) and np.array_equal(u_plain, u, equal_nan=True) and np.shape(ug) == (len(q),), info, True,
                                 'FIM-return-shape')
-                if np.all(np.isfinite(wantF)):     # (p0 is not the MLE: the observed information may be indefinite; then only matrices are compared)
-                    _order2(d_, key + ('FIM',), eF, amp, info, fk('FIM_uncert-vs-closed-form'), ro=ro)
-                _order2(d_, key + ('H',), eH, amp, info, fk('hessian-vs-closed-form'), ro=ro)
-                if np.all(np.isfinite(wantG)):
-                    _order2(d_, key + ('GIM_uncert',), eG, amp, info, fk('GIM_uncert-vs-closed-form'), ro=ro)
-                _order2(d_, key + ('GIM',), eGIM, amp, info, fk('GIM-matrix-vs-closed-form'), ro=ro)
+                if doc_one_sided:
+                    for nm, ee in (('FIM', eF), ('H', eH), ('GIM_uncert', eG), ('GIM', eGIM)):
+                        ok = all(np.isnan(e) or e <= 6 * amp * eps + (1e-7 + ro) * amp for e, eps in zip(ee, EPS))
+                        d_.case(key + (nm, 'one-sided'), bool(ok), dict(info, errs=ee, amp=amp), True, 'closed-form-first-order-on-documented-one-sided-branch')
+                else:
+                    if np.all(np.isfinite(wantF)):     # (p0 is not the MLE: the observed information may be indefinite; then only matrices are compared)
+                        _order2(d_, key + ('FIM',), eF, amp, info, fk('FIM_uncert-vs-closed-form'), ro=ro)
+                    _order2(d_, key + ('H',), eH, amp, info, fk('hessian-vs-closed-form'), ro=ro)
+                    if np.all(np.isfinite(wantG)):
+                        _order2(d_, key + ('GIM_uncert',), eG, amp, info, fk('GIM_uncert-vs-closed-form'), ro=ro)
+                    _order2(d_, key + ('GIM',), eGIM, amp, info, fk('GIM-matrix-vs-closed-form'), ro=ro)
                 d_.case(key + ('H-same-in-FIM-and-GIM',), max(eGH) == 0.0, dict(info, diff=eGH), True, 'H-differs-between-FIM-and-GIM')
                 # bootstrap-order independence
                 G.cache.clear()
